@@ -220,7 +220,16 @@ pub fn run(ctx: &Ctx, out: &mut CaseOut) {
                         Err(e) => {
                             // F10: on coinductive goals with unknowns the recursive solver's answers grow with every iteration,
                             // so an interrupted and an uninterrupted search stop at different towers
-                            let sig = if !is_slg && db.nonground_coinductive.get() { Some("recursive:coinductive-nonground:divergence") } else { None };
+                            // F35: a definite (Unique / definite-guidance) limited answer of the recursive solver that differs
+                            // from the full one, on a goal whose trait lies on a cycle of the impl-requires graph
+                            let definite_lim = matches!(&lim, Some(Solution::Unique(_)) | Some(Solution::Ambig(Guidance::Definite(_))));
+                            let sig = if !is_slg && db.nonground_coinductive.get() {
+                                Some("recursive:coinductive-nonground:divergence")
+                            } else if !is_slg && definite_lim && w.goals[gi].2.as_ref().map_or(false, |g| goal_traits_in_cycle(&w.prog, g)) {
+                                Some("recursive:interrupted-guidance-from-cyclic-provisional-result")
+                            } else {
+                                None
+                            };
                             out.violation(sig, format!("{} interrupted ({}): {}: limited `{}` vs full `{}`", solver_name(&choice), sched_name, e, disp(&lim), disp(full)), d());
                             continue;
                         }
